@@ -22,6 +22,7 @@ def reset():
         probe_log=[],        # (tag, value)
         boom_calls={},       # site -> number of calls
         armed={},            # site -> dict(at=k or None, until=k or None, exc=name, fired=0)
+        fired=0,             # total number of injected raises
     )
 
 
@@ -57,5 +58,6 @@ def boom(site, x):
         k = calls[site] - plan['start']
         if (k == plan['at']) or (plan['persistent'] and k >= plan['at']):
             plan['fired'] += 1
+            STATE['fired'] += 1
             raise EXC_CLASSES[plan['exc']](f'injected fault at {site}')
     return x
